@@ -72,6 +72,11 @@ def file_item(out, item, rep, tmpdir):
             else:
                 df = parser_v2.parse_cif_atoms(text)
             emit(out, iid, "v2_write_cif", rep, parser_v2.write_cif(df), len(df) > 0)
+            if os.path.getsize(path) < 250_000:
+                # the same through the package's input helper and an open file object instead of text
+                with handle_input_file(path) as fh2:
+                    df2 = parser_v2.parse_pdb_atoms(fh2) if path.endswith(".pdb") else parser_v2.parse_cif_atoms(fh2)
+                emit(out, iid, "v2_write_cif_from_handle", rep, parser_v2.write_cif(df2), len(df2) > 0)
             try:
                 pdb_text = parser_v2.write_pdb(df)
             except Exception as e:  # noqa: BLE001 - refusal is a legitimate, deterministic outcome
@@ -460,16 +465,39 @@ def bpseq_item(out, item, rep, tmpdir=None):
             pulp.LpSolverDefault = pulp.PULP_CBC_CMD(msg=False)
         bp = BpSeq([Entry(i, c, j) for i, c, j in item["triples"]])
         has_pairs = any(j for _, _, j in item["triples"])
-        alls = bp.all_dot_brackets
-        emit(out, iid, "all_dot_brackets@" + solver_name, rep, "\n".join(str(d) for d in alls), len(alls) >= 2)
-        emit(out, iid, "dot_bracket@" + solver_name, rep, str(bp.dot_bracket), has_pairs)
-        emit(out, iid, "fcfs@" + solver_name, rep, str(bp.fcfs), has_pairs)
-        emit(out, iid, "bpseq@" + solver_name, rep, str(bp), has_pairs)
-        emit(out, iid, "elements@" + solver_name, rep, "\n".join(str(e) for lst in bp.elements for e in lst), has_pairs)
-        emit(out, iid, "without_pseudoknots@" + solver_name, rep, str(bp.without_pseudoknots()), has_pairs)
-        emit(out, iid, "without_isolated@" + solver_name, rep, str(bp.without_isolated()), has_pairs)
+
+        def elements_json():
+            # the element objects as orjson sees them (instance attributes included) - the way Structure2D is written
+            import orjson
+
+            return orjson.dumps([list(group) for group in bp.elements], option=orjson.OPT_SERIALIZE_NUMPY)
+
+        def listing():
+            alls = bp.all_dot_brackets
+            return "\n".join(str(d) for d in alls), len(alls) >= 2
+
+        queries = [
+            ("all_dot_brackets", listing),
+            ("dot_bracket", lambda: (str(bp.dot_bracket), has_pairs)),
+            ("fcfs", lambda: (str(bp.fcfs), has_pairs)),
+            ("bpseq", lambda: (str(bp), has_pairs)),
+            ("elements", lambda: ("\n".join(str(e) for lst in bp.elements for e in lst), has_pairs)),
+            ("elements_json", lambda: (elements_json(), has_pairs)),
+            ("without_pseudoknots", lambda: (str(bp.without_pseudoknots()), has_pairs)),
+            ("without_isolated", lambda: (str(bp.without_isolated()), has_pairs)),
+        ]
         if item.get("graphviz") and solver_name == item["solvers"][0]:
-            emit(out, iid, "graphviz_source", rep, graphviz_source(bp, tmpdir), has_pairs)
+            queries.append(("graphviz_source", lambda: (graphviz_source(bp, tmpdir), has_pairs)))
+        # the queries are asked in an order of this interpreter's and this repetition's own: an answer that depends
+        # on which other queries were answered before it on the same object differs between interpreters
+        order = os.environ.get("VERIF_C14_ORDER")
+        if order is not None:
+            import random
+
+            random.Random("%s|%d|%s|%s" % (order, rep, iid, solver_name)).shuffle(queries)
+        for kind, fn in queries:
+            data, nontrivial = fn()
+            emit(out, iid, kind + ("" if kind == "graphviz_source" else "@" + solver_name), rep, data, nontrivial)
 
 
 def tool_item(out, item, rep, tmpdir, nontrivial=None, inputs=None):
